@@ -29,7 +29,7 @@ def make_todo(ck, rng, names, n, reps):
         if body in ('raise', 'break', 'ret'):
             cfg['mod'] = rng.choice([2, 3, 5, 7, 1000])
             cfg['rem'] = rng.randrange(min(cfg['mod'], 7))
-        if body == 'mix':
+        if body in ('mix', 'rbreak'):
             cfg['mod'] = rng.choice([4, 5, 6, 9])
         todo.append(cfg)
     return todo
